@@ -294,7 +294,7 @@ def busStep2 (st : BusSt) (args : List String) : BusSt × String :=
   let b := st.bus
   match args with
   | "new" :: kind :: rest =>
-    if kind ≠ "own" ∧ kind ≠ "user" then (st, "bad-op") else
+    if kind ≠ "own" ∧ kind ≠ "user" ∧ kind ≠ "capi" then (st, "bad-op") else
     match rest with
     | [] => ({ bus := newBus none }, "ok")
     | [seed] =>
